@@ -546,70 +546,115 @@ var _ = types.Typ
 // only along the verified driver: key/IV loading and the one-off discarded clock happen exactly
 // once per (key, IV) because nothing else can call them.
 func checkCipherCallers(c *cryptoCtx) {
-	allowed := map[string][]string{
-		snowPkg + ".newSnow3g":                             {snowPkg + ".GetKeyStream"},
-		"(*" + snowPkg + ".snow3g).generateKeystream":      {snowPkg + ".GetKeyStream"},
-		"(*" + snowPkg + ".snow3g).clockFsm":               {snowPkg + ".newSnow3g", "(*" + snowPkg + ".snow3g).generateKeystream"},
-		"(*" + snowPkg + ".snow3g).lfsrInitializationMode": {snowPkg + ".newSnow3g"},
-		"(*" + snowPkg + ".snow3g).lfsrKeystreamMode":      {"(*" + snowPkg + ".snow3g).generateKeystream"},
-		"(*" + zucPkg + ".Lfsr).initialization":            {zucPkg + ".Zuc"},
-		zucPkg + ".generateKeystream":                      {zucPkg + ".Zuc"},
-		"(*" + zucPkg + ".Br).bitReorganization":           {"(*" + zucPkg + ".Lfsr).initialization", zucPkg + ".generateKeystream"},
-		"(*" + zucPkg + ".Fsm).nonlinF":                    {"(*" + zucPkg + ".Lfsr).initialization", zucPkg + ".generateKeystream"},
-		"(*" + zucPkg + ".Lfsr).state":                     {"(*" + zucPkg + ".Lfsr).initialization", zucPkg + ".generateKeystream"},
-	}
-	found := map[string]bool{}
-	for fn := range c.w.AllFuncs() {
-		if fn.Pkg == nil || !IsRepoPkg(fn.Pkg.Pkg) || fn.Blocks == nil {
+	// A function is *protected* when it works on a cipher state object: its receiver, a parameter or
+	// a result is (a pointer to) one of the package's state structs — found by type, not by name.
+	// Every call of a protected function must come from a protected function of the same package or
+	// from the package's driver (GetKeyStream / Zuc): then the state is created, loaded with key and IV
+	// and clocked only along the schedule the driver rules compare with the standard.
+	for _, pk := range []struct{ rel, pkg, root string }{{"security/snow3g", snowPkg, "GetKeyStream"}, {"security/zuc", zucPkg, "Zuc"}} {
+		p := c.w.ByRel[pk.rel]
+		if p == nil {
+			c.r.Fail("anchor", pk.rel, "missing", 0, "package not found", nil)
 			continue
 		}
-		caller := fn.String()
-		if p := fn.Parent(); p != nil {
-			caller = p.String()
-		}
-		for _, b := range fn.Blocks {
-			for _, ins := range b.Instrs {
-				var callee *ssa.Function
-				if ci, ok := ins.(ssa.CallInstruction); ok {
-					callee = ci.Common().StaticCallee()
+		// state structs: unexported-or-exported named structs of the package holding word arrays
+		state := map[*types.Named]bool{}
+		sc := p.Types.Scope()
+		for _, n := range sc.Names() {
+			tn, ok := sc.Lookup(n).(*types.TypeName)
+			if !ok {
+				continue
+			}
+			nt, ok := tn.Type().(*types.Named)
+			if !ok {
+				continue
+			}
+			st, ok := nt.Underlying().(*types.Struct)
+			if !ok {
+				continue
+			}
+			for i := 0; i < st.NumFields(); i++ {
+				if a, ok := st.Field(i).Type().Underlying().(*types.Array); ok {
+					if b, ok := a.Elem().Underlying().(*types.Basic); ok && b.Kind() == types.Uint32 {
+						state[nt] = true
+					}
 				}
-				// a protected function taken as a value escapes the rule
-				for _, op := range ins.Operands(nil) {
-					if f, ok := (*op).(*ssa.Function); ok && f != callee {
-						if _, prot := allowed[f.String()]; prot {
+			}
+		}
+		if len(state) == 0 {
+			c.r.Fail("anchor", pk.rel, "state", 0, "no cipher state struct found in "+pk.rel, nil)
+			continue
+		}
+		isState := func(t types.Type) bool {
+			n := namedOf(t)
+			return n != nil && state[n]
+		}
+		protected := func(f *ssa.Function) bool {
+			if f == nil || f.Pkg == nil || f.Pkg.Pkg != p.Types {
+				return false
+			}
+			sig := f.Signature
+			if sig.Recv() != nil && isState(sig.Recv().Type()) {
+				return true
+			}
+			for i := 0; i < sig.Params().Len(); i++ {
+				if isState(sig.Params().At(i).Type()) {
+					return true
+				}
+			}
+			for i := 0; i < sig.Results().Len(); i++ {
+				if isState(sig.Results().At(i).Type()) {
+					return true
+				}
+			}
+			return false
+		}
+		rootName := pk.pkg + "." + pk.root
+		nsites := 0
+		for fn := range c.w.AllFuncs() {
+			if fn.Pkg == nil || !IsRepoPkg(fn.Pkg.Pkg) || fn.Blocks == nil {
+				continue
+			}
+			outer := fn
+			for outer.Parent() != nil {
+				outer = outer.Parent()
+			}
+			callerOK := protected(outer) || outer.String() == rootName
+			if callerOK && outer.String() != rootName && outer.Object() != nil && outer.Object().Exported() {
+				// an exported function working on the cipher state is a second way in, next to the driver
+				callerOK = false
+			}
+			for _, b := range fn.Blocks {
+				for _, ins := range b.Instrs {
+					var callee *ssa.Function
+					if ci, ok := ins.(ssa.CallInstruction); ok {
+						callee = ci.Common().StaticCallee()
+					}
+					// a protected function taken as a value escapes the rule
+					for _, op := range ins.Operands(nil) {
+						if f, ok := (*op).(*ssa.Function); ok && f != callee && protected(f) {
 							c.r.Site("drv.callers")
 							c.r.Fail("drv.callers", SSAFuncName(fn), f.Name()+" as value", ins.Pos(), "the cipher step "+f.Name()+" is taken as a function value: its callers can no longer be enumerated", nil)
 						}
 					}
-				}
-				if callee == nil {
-					continue
-				}
-				al, prot := allowed[callee.String()]
-				if !prot {
-					continue
-				}
-				found[callee.String()] = true
-				c.r.Site("drv.callers")
-				ok := false
-				for _, a := range al {
-					ok = ok || a == caller
-				}
-				if !ok {
-					c.r.Fail("drv.callers", SSAFuncName(fn), callee.Name(), ins.Pos(), "the cipher state function "+callee.Name()+" is entered from "+fn.Name()+", outside the verified driver (key/IV loading and the discarded first clock must happen exactly once per key and IV)", nil)
-				} else {
-					c.r.OK("drv.callers")
+					if callee == nil || !protected(callee) {
+						continue
+					}
+					nsites++
+					c.r.Site("drv.callers")
+					if !callerOK {
+						c.r.Fail("drv.callers", SSAFuncName(fn), callee.Name(), ins.Pos(), "the cipher state function "+callee.Name()+" is entered from "+fn.Name()+", outside the verified driver (key/IV loading and the discarded first clock must happen exactly once per key and IV)", nil)
+					} else {
+						c.r.OK("drv.callers")
+					}
 				}
 			}
 		}
-	}
-	for k := range allowed {
-		if !found[k] {
-			c.r.Fail("drv.callers", k, "anchor", 0, "protected cipher function not found or never called: "+k, nil)
+		if nsites == 0 {
+			c.r.Fail("drv.callers", pk.rel, "anchor", 0, "no call of a cipher state function found in "+pk.rel+": the driver cannot be the only way in", nil)
 		}
 	}
 }
-
 
 // checkCipherPurity (pure.no-state): the output of a cipher / MAC function is a function of its
 // arguments alone: it writes no package-level (or unknown) memory, keeps no pointer in
